@@ -679,7 +679,14 @@ def r7_window(ctx):
     bm = next((k for k, v in defs.items() if v.endswith('.spectrum_bitmap')), None)
     inv = {v.split('.')[-1]: k for k, v in defs.items() if bm and v.startswith(bm + '.') and '(' not in v}
     cen = next((k for k, v in defs.items() if 'geti(' in v and v.endswith(f'({ds.params[1]})')), None)
-    if cen is None or not all(k in inv for k in ('bitmap', 'freq_index', 'freq_index_min', 'freq_index_max')):
+    miss = [k for k in ('bitmap', 'freq_index', 'freq_index_min', 'freq_index_max') if k not in inv]
+    if cen is not None and miss and set(miss) <= {'freq_index_min', 'freq_index_max'}:
+        ctx.bad('R7.window', f'{site(ds)} probe: guard bands', key(ds, 'probe|guard-source'),
+                f'the widening probe does not compare the window edges with the spectrum map\'s {miss} (the usable range inside the guard '
+                'bands): a fixed slot reaching into a guard band would be accepted', str({k: v for k, v in defs.items() if bm and v.startswith(bm + '.')}))
+        ctx.need('R7.window', 8)
+        return
+    if cen is None or miss:
         raise CannotAnalyse('determine_slot_numbers: locals not recognised')
     w3, rest3 = _window(loops[0].test, inv['bitmap'], inv['freq_index'], inv['freq_index_min'], inv['freq_index_max'])
     step = ds.params[3]
